@@ -261,6 +261,26 @@ theorem C_eval_nameFree_total (te : C.TyEnv) (s : Store) (e : Expr) (h : e.nameF
         · rw [hy, ok_bind]; left; exact ⟨_, rfl⟩
         · right; exact ub_bind _ hy
     · right; exact ub_bind _ hx
+  | abs a iha =>
+    simp only [Expr.nameFree] at h
+    rw [C.eval]
+    rcases iha h with ⟨x, hx⟩ | hx
+    · rw [hx, ok_bind]
+      split
+      · left; exact ⟨_, rfl⟩
+      · rcases chk_cases (-x.toInt) with hc | hc
+        · left; exact ⟨_, hc⟩
+        · right; exact hc
+    · right; exact ub_bind _ hx
+  | mm k a b iha ihb =>
+    simp only [Expr.nameFree, Bool.and_eq_true] at h
+    rw [C.eval]
+    rcases iha h.1 with ⟨x, hx⟩ | hx
+    · rw [hx, ok_bind]
+      rcases ihb h.2 with ⟨y, hy⟩ | hy
+      · rw [hy, ok_bind]; left; exact ⟨_, rfl⟩
+      · right; exact ub_bind _ hy
+    · right; exact ub_bind _ hx
 
 theorem C_eval_nameFree_store (te : C.TyEnv) (s s' : Store) (e : Expr) (h : e.nameFree = true) :
     C.eval te s e = C.eval te s' e :=
